@@ -16,6 +16,8 @@
 (*   close res err   Close() of res was called (err: it returned an error)              *)
 (*   end why         "complete": every call returned; "deadlock": the Go runtime found  *)
 (*                   every goroutine blocked with calls outstanding                     *)
+(*                   "crash": a goroutine of the code under test that no caller can     *)
+(*                   guard (e.g. started by NewNested) panicked and ended the process   *)
 (*   other lines (obs, enter, closegate, closeopen) belong to the M-level trace spec    *)
 (* Nested cases (mode nproto: the outer context holds a resources.NewNested resource    *)
 (* around 2-3 gated inner contexts; cfg also lists the resources of every inner         *)
